@@ -33,6 +33,7 @@ pub enum K {
     Read,
     Exchange, // macro: r melds from x and refreshes
     EditCommit, // macro: update then commit
+    Diverge, // macro: two replicas edit and commit concurrently, then one learns the other's work
     N,
 }
 
@@ -68,6 +69,7 @@ fn base_weights() -> [u32; K::N as usize] {
     w[K::Tick as usize] = 4;
     w[K::Restart as usize] = 2;
     w[K::Read as usize] = 1;
+    w[K::Diverge as usize] = 8;
     w
 }
 
@@ -124,6 +126,7 @@ pub fn profile_for(prop: &str, variant: u64) -> Profile {
         }
         "C05" | "C19" => {
             p.name = if prop == "C05" { "winner-rule" } else { "identifiers" };
+            w[K::Diverge as usize] = 16;
             w[K::Update as usize] = 30;
             w[K::Resolve as usize] = 8;
             w[K::ObjOp as usize] = 4;
@@ -132,18 +135,21 @@ pub fn profile_for(prop: &str, variant: u64) -> Profile {
         }
         "C06" => {
             p.name = "array-merge";
+            w[K::Diverge as usize] = 30;
             w[K::Resolve as usize] = 1;
             w[K::Exchange as usize] = 16;
             p.replicas = (2, 4);
         }
         "C07" => {
             p.name = "resolution";
+            w[K::Diverge as usize] = 30;
             w[K::Resolve as usize] = 14;
             w[K::Exchange as usize] = 16;
             p.converge_end = 80;
         }
         "C08" => {
             p.name = "returns";
+            w[K::Diverge as usize] = 20;
             w[K::Resolve as usize] = 8;
             w[K::Snapshot as usize] = 5;
             w[K::Unstage as usize] = 4;
@@ -178,6 +184,7 @@ pub fn profile_for(prop: &str, variant: u64) -> Profile {
         }
         "C12" => {
             p.name = "maintenance";
+            w[K::Diverge as usize] = 24;
             w[K::Snapshot as usize] = 10;
             w[K::Meld as usize] = 10;
             w[K::Refresh as usize] = 12;
@@ -390,7 +397,13 @@ impl Gen {
             return vec![Op::Reload { r }];
         }
         let other = if n > 1 { (r + 1 + self.rng.below(n - 1)) % n } else { r };
-        let k = self.rng.weighted(&self.w);
+        let mut k = self.rng.weighted(&self.w);
+        if self.w[K::Resolve as usize] > 0 && !w.replicas[r].time_travel && self.rng.chance(1, 3) {
+            let m = w.replicas[r].live.as_ref().unwrap();
+            if crate::api::guard(|| !m.in_conflict().is_empty()).unwrap_or(false) {
+                k = K::Resolve as usize;
+            }
+        }
         let cfg = w.cfg.doc.clone();
         let net = self.prof.net_faults;
         let ops: Vec<Op> = match k {
@@ -447,6 +460,24 @@ impl Gen {
             x if x == K::FailWrites as usize => vec![Op::FailWrites { r, nth: self.rng.range(1, 3) as u32, repeat: if self.rng.chance(1, 4) { self.rng.range(2, 3) as u32 } else { 1 } }],
             x if x == K::DiskFull as usize => vec![Op::DiskFull { r, on: self.rng.chance(1, 2) }],
             x if x == K::Read as usize => vec![Op::Read { r }],
+            x if x == K::Diverge as usize => {
+                if n < 2 || w.replicas[r].time_travel || w.replicas[other].time_travel {
+                    vec![Op::Reload { r }]
+                } else {
+                    let mut v = vec![];
+                    v.push(Op::Update { r, doc: self.next_doc(w, r), twice: false });
+                    v.push(Op::Commit { r, info: commit_info(&mut self.rng, &cfg) });
+                    v.push(Op::Update { r: other, doc: self.next_doc(w, other), twice: false });
+                    v.push(Op::Commit { r: other, info: commit_info(&mut self.rng, &cfg) });
+                    v.push(Op::Meld { r, from: other });
+                    v.push(Op::Refresh { r });
+                    if self.rng.chance(1, 2) {
+                        v.push(Op::Meld { r: other, from: r });
+                        v.push(Op::Refresh { r: other });
+                    }
+                    v
+                }
+            }
             x if x == K::Exchange as usize => {
                 let mut v = vec![];
                 if self.staging(w, r) {
